@@ -55,8 +55,15 @@ def expected(g, thr=Fraction(1, 2)):
     return m
 
 
+COMPETITION = [((1, 1), (2, 1), (2, 1), (0, 1)), ((2, 1), (1, 1), (1, 1), (0, 1)), ((1, 1), (1, 2), (1, 2), (1, 0)), ((1, 2), (1, 1), (1, 1), (1, 0)),
+               ((1, 1), (2, 1), (2, 1), (2, 0))]
+
+
 def matcher_cases(tier, prop):
     out = []
+    # two candidates compete for one instance below IoU 1/2 (threshold 1/4): the documented outcome is decided by the scores, not by label order
+    for dt in (("uint8", "uint32") if tier == "quick" else tuple(DT_BITS)):
+        out.append({"name": "matcher_competition_%s" % dt, "what": "layerA_matcher", "dtype": dt, "geoms": [tuple(sorted(g)) for g in COMPETITION], "thr": [1, 4]})
     plan = [(2, dt) for dt in DT_BITS] + ([(3, "uint8")] if tier == "quick" else [(3, dt) for dt in DT_BITS])
     for N, dt in plan:
         geoms = [g for g in canon_geoms(N, 2) if expected(g) is not None]
@@ -87,17 +94,18 @@ def run_matcher_case(case, prop, names):
             declare_bounds(l, 1, lim - 1)
         base.append(prev < lim)
     geoms = [tuple(tuple(x) for x in g) for g in case["geoms"]]
+    thr = Fraction(*case["thr"]) if case.get("thr") else Fraction(1, 2)
     cur = {}
 
     def decode(m):
         g = cur["g"]
         lp = [jsonable(x, m) for x in LP]
         lr = [jsonable(x, m) for x in LR]
-        return {"what": "layerA_matcher", "dtype": dt, "geom": [list(x) for x in g], "pred": [lp[p - 1] if p else 0 for p, r in g], "ref": [lr[r - 1] if r else 0 for p, r in g]}
+        return {"what": "layerA_matcher", "dtype": dt, "thr": [thr.numerator, thr.denominator], "geom": [list(x) for x in g], "pred": [lp[p - 1] if p else 0 for p, r in g], "ref": [lr[r - 1] if r else 0 for p, r in g]}
     h = H(prop, case["name"], decode, replay_kind="layerA_matcher", max_witnesses=len(geoms) * 2)
 
     def body_for(g):
-        want = expected(g)
+        want = expected(g, thr)
         npred = max(p for p, r in g)
 
         def body():
@@ -105,7 +113,7 @@ def run_matcher_case(case, prop, names):
             pa = SArr([LP[p - 1] if p else 0 for p, r in g], dt).protect("caller prediction")
             ra = SArr([LR[r - 1] if r else 0 for p, r in g], dt).protect("caller reference")
             try:
-                mp = IM.NaiveThresholdMatching(Metric.IOU, 0.5).match_instances(PP.UnmatchedInstancePair(pa, ra))
+                mp = IM.NaiveThresholdMatching(Metric.IOU, float(thr)).match_instances(PP.UnmatchedInstancePair(pa, ra))
             except EngineSignal:
                 raise
             except WriteToProtected as e:
@@ -163,9 +171,10 @@ def real_matcher(case, mode, expect, names):
     pred = np.array(case["pred"], dtype=dt)
     ref = np.array(case["ref"], dtype=dt)
     p0, r0 = pred.copy(), ref.copy()
-    want = expected(g)
+    thr = Fraction(*case["thr"]) if case.get("thr") else Fraction(1, 2)
+    want = expected(g, thr)
     try:
-        mp = NaiveThresholdMatching(Metric.IOU, 0.5).match_instances(UnmatchedInstancePair(pred, ref))
+        mp = NaiveThresholdMatching(Metric.IOU, float(thr)).match_instances(UnmatchedInstancePair(pred, ref))
     except Exception as e:
         return {"match": False, "violates": True, "reason": "matching_completes: %s: %s" % (type(e).__name__, str(e)[:160]), "observed": None}
     out = [int(x) for x in np.asarray(mp.prediction_arr).tolist()]
